@@ -88,6 +88,358 @@ void run_c18(const std::vector<std::vector<std::string>>& cases, vt::Rng& rng)
    }
 }
 
+
+// ---- C08 -------------------------------------------------------------------------------
+// case line: <id> <sector> <tbclass> <ytype> <ckm real|complex> <origin mass|gauge>
+//   sector of sin(beta-alpha): m1 (=-1) | neg_hi (-1,-0.7) | neg_lo (-0.7,0) | zero | pos_lo | pos_hi | p1 | align (1-1e-6..1-2e-2)
+double sba_of(const std::string& sec, vt::Rng& r)
+{
+   if (sec == "m1") return -1.0;
+   if (sec == "p1") return 1.0;
+   if (sec == "zero") return 0.0;
+   if (sec == "neg_hi") return -r.uni(0.7, 0.9999);
+   if (sec == "neg_lo") return -r.uni(0.01, 0.7);
+   if (sec == "pos_lo") return r.uni(0.01, 0.7);
+   if (sec == "pos_hi") return r.uni(0.7, 0.9999);
+   return 1.0 - r.logu(1e-6, 2e-2);
+}
+
+double tb_of(const std::string& cls, vt::Rng& r)
+{
+   if (cls == "small") return r.logu(0.05, 0.9);
+   if (cls == "one") return 1.0;
+   if (cls == "large") return r.logu(30, 200);
+   return r.logu(1.1, 30);
+}
+
+NV mass_basis_fields(const thdm::Mass_basis& b)
+{
+   return {{"mh", b.mh}, {"mH", b.mH}, {"mA", b.mA}, {"mHp", b.mHp}, {"sba", b.sin_beta_minus_alpha}, {"lambda6", b.lambda_6},
+           {"lambda7", b.lambda_7}, {"tan_beta", b.tan_beta}, {"m122", b.m122}};
+}
+
+void run_c08(const std::vector<std::vector<std::string>>& cases, vt::Rng& rng)
+{
+   for (const auto& c : cases) {
+      const std::string& id = c.at(0);
+      const int ytype = std::stoi(c.at(3));
+      ThdmPt p = vm::random_thdm_mass(rng, ytype, true);
+      p.mb.sin_beta_minus_alpha = sba_of(c.at(1), rng);
+      p.mb.tan_beta = tb_of(c.at(2), rng);
+      p.mb.lambda_6 = rng.uni(-3, 3); p.mb.lambda_7 = rng.uni(-3, 3);
+      p.mb.mh = rng.coin() ? rng.logu(10, 300) : (rng.below(8) == 0 ? 0.0 : 125.0);
+      p.mb.mH = p.mb.mh + rng.logu(1, 5000);
+      p.mb.mA = rng.logu(10, 1e4); p.mb.mHp = rng.logu(10, 1e4);
+      p.mb.m122 = rng.sign() * rng.logu(1, 1e7);
+      if (c.at(4) == "complex") p.sm.set_ckm_from_wolfenstein(rng.uni(0.1, 0.4), rng.uni(0.5, 1.0), rng.uni(-0.3, 0.3), rng.uni(0.1, 0.5));
+      else p.sm.set_ckm_from_wolfenstein(rng.uni(0.1, 0.4), rng.uni(0.5, 1.0), rng.uni(-0.3, 0.3), 0.0);
+      p.cfg.force_output = true;     // observe the spectrum also where a tachyon would be reported
+      const std::string sig = c.at(1) + "/" + c.at(2) + "/type" + c.at(3) + "/" + c.at(4) + "/" + c.at(5);
+      if (c.at(5) == "mass") {
+         Built b = build(p);
+         vt::Ev ev("Built");
+         ev.str("case", id).str("sig", sig).str("basis", "mass").str("exc", b.exc).raw("in", vm::named_json(mass_basis_fields(p.mb)));
+         if (b.exc.empty()) ev.raw("st", vm::named_json(vm::thdm_state(*b.model))).b("problem", b.model->get_problems().have_problem());
+         ev.emit();
+         if (!b.exc.empty()) continue;
+         // rebuild from the lambda_1..7 it reports
+         ThdmPt q = p;
+         q.mass_basis = false;
+         q.gb.yukawa_type = p.mb.yukawa_type;
+         q.gb.lambda << b.model->get_lambda1(), b.model->get_lambda2(), b.model->get_lambda3(), b.model->get_lambda4(),
+            b.model->get_lambda5(), b.model->get_lambda6(), b.model->get_lambda7();
+         q.gb.tan_beta = b.model->get_tan_beta(); q.gb.m122 = b.model->get_m122();
+         q.gb.zeta_u = p.mb.zeta_u; q.gb.zeta_d = p.mb.zeta_d; q.gb.zeta_l = p.mb.zeta_l;
+         q.gb.Delta_u = p.mb.Delta_u; q.gb.Delta_d = p.mb.Delta_d; q.gb.Delta_l = p.mb.Delta_l;
+         q.gb.Pi_u = p.mb.Pi_u; q.gb.Pi_d = p.mb.Pi_d; q.gb.Pi_l = p.mb.Pi_l;
+         Built b2 = build(q);
+         vt::Ev e2("Rebuilt");
+         e2.str("case", id).str("sig", sig).str("basis", "gauge").str("exc", b2.exc);
+         if (b2.exc.empty()) e2.raw("st", vm::named_json(vm::thdm_state(*b2.model)));
+         e2.emit();
+      } else {
+         // gauge-basis origin: perturbative quartics, then back through the mass basis
+         ThdmPt q = p;
+         q.mass_basis = false;
+         q.gb.yukawa_type = p.mb.yukawa_type;
+         q.gb.lambda << rng.uni(0.1, 2), rng.uni(0.1, 2), rng.uni(-1, 2), rng.uni(-2, 2), rng.uni(-2, 0.5), rng.uni(-0.5, 0.5), rng.uni(-0.5, 0.5);
+         q.gb.tan_beta = p.mb.tan_beta; q.gb.m122 = rng.logu(1e3, 1e6);
+         Built b = build(q);
+         vt::Ev ev("Built");
+         ev.str("case", id).str("sig", sig).str("basis", "gauge").str("exc", b.exc)
+           .raw("in", vm::named_json({{"lambda1", q.gb.lambda(0)}, {"lambda2", q.gb.lambda(1)}, {"lambda3", q.gb.lambda(2)},
+                                      {"lambda4", q.gb.lambda(3)}, {"lambda5", q.gb.lambda(4)}, {"lambda6", q.gb.lambda(5)},
+                                      {"lambda7", q.gb.lambda(6)}, {"tan_beta", q.gb.tan_beta}, {"m122", q.gb.m122}}));
+         if (b.exc.empty()) ev.raw("st", vm::named_json(vm::thdm_state(*b.model))).b("problem", b.model->get_problems().have_problem());
+         ev.emit();
+         if (!b.exc.empty() || b.model->get_problems().have_problem()) continue;
+         ThdmPt r2 = p;
+         r2.mass_basis = true;
+         r2.mb.mh = b.model->get_Mhh(0); r2.mb.mH = b.model->get_Mhh(1); r2.mb.mA = b.model->get_MAh(1); r2.mb.mHp = b.model->get_MHm(1);
+         r2.mb.sin_beta_minus_alpha = b.model->get_sin_beta_minus_alpha();
+         r2.mb.lambda_6 = b.model->get_lambda6(); r2.mb.lambda_7 = b.model->get_lambda7();
+         r2.mb.tan_beta = b.model->get_tan_beta(); r2.mb.m122 = b.model->get_m122();
+         Built b2 = build(r2);
+         vt::Ev e2("Rebuilt");
+         e2.str("case", id).str("sig", sig).str("basis", "mass").str("exc", b2.exc);
+         if (b2.exc.empty()) e2.raw("st", vm::named_json(vm::thdm_state(*b2.model)));
+         e2.emit();
+      }
+   }
+}
+
+// ---- C09 -------------------------------------------------------------------------------
+// case line: <id> <kind> <ytype> <tbclass> <running 0|1> [param]
+//   kind: typed      type I/II/X/Y model vs aligned model with the table's zeta
+//         general    aligned (zeta, Delta) vs general (Pi encoding the same couplings), running off
+//         ignored    perturb a parameter documented as ignored for the type: <param> in zeta|Pi|Delta
+NV res_and_yuk(const THDM& m)
+{
+   NV v = vm::thdm_results(m);
+   for (const auto& p : vm::thdm_yukawas(m)) v.push_back(p);
+   return v;
+}
+
+void emit_pair(const char* evname, const std::string& id, const std::string& sig, const std::string& role, const ThdmPt& p)
+{
+   Built b = build(p);
+   vt::Ev ev(evname);
+   ev.str("case", id).str("sig", sig).str("kind", sig.substr(0, sig.find('/'))).str("role", role).str("exc", b.exc)
+     .b("running", p.cfg.running_couplings);
+   if (b.exc.empty()) ev.raw("res", vm::named_json(res_and_yuk(*b.model)));
+   ev.emit();
+}
+
+void run_c09(const std::vector<std::vector<std::string>>& cases, vt::Rng& rng)
+{
+   for (const auto& c : cases) {
+      const std::string& id = c.at(0);
+      const std::string& kind = c.at(1);
+      const int ytype = std::stoi(c.at(2));
+      ThdmPt p = vm::random_thdm_mass(rng, ytype, false);
+      p.mb.tan_beta = tb_of(c.at(3), rng);
+      p.mb.m122 = p.mb.mA * p.mb.mA * p.mb.tan_beta / (1 + p.mb.tan_beta * p.mb.tan_beta) * rng.uni(0.5, 1.5);
+      p.cfg.running_couplings = c.at(4) == "1";
+      const std::string sig = kind + "/type" + c.at(2) + "/" + c.at(3) + "/run" + c.at(4) + (c.size() > 5 ? "/" + c[5] : "");
+      const double tb = p.mb.tan_beta;
+      if (kind == "typed") {
+         ThdmPt q = p;
+         q.mb.yukawa_type = thdm::Yukawa_type::aligned;
+         // Table 1 of arXiv:1607.06292: zeta_u, zeta_d, zeta_l per type
+         const double cot = 1.0 / tb, mt = -tb;
+         q.mb.zeta_u = cot;
+         q.mb.zeta_d = (ytype == 1 || ytype == 3) ? cot : mt;
+         q.mb.zeta_l = (ytype == 1 || ytype == 4) ? cot : mt;
+         emit_pair("Equiv", id, sig, "a", p);
+         emit_pair("Equiv", id, sig, "b", q);
+      } else if (kind == "general") {
+         // aligned model with arbitrary zeta_f, Delta_f ...
+         ThdmPt a = p;
+         a.cfg.running_couplings = false;
+         a.mb.yukawa_type = thdm::Yukawa_type::aligned;
+         a.mb.zeta_u = rng.uni(-2, 2); a.mb.zeta_d = rng.uni(-100, 100); a.mb.zeta_l = rng.uni(-100, 100);
+         a.mb.Delta_u = vm::rand33(rng, 0.01); a.mb.Delta_d = vm::rand33(rng, 0.01); a.mb.Delta_l = vm::rand33(rng, 0.01);
+         // ... and the general model whose Pi_f encode the same couplings:
+         //     rho_f = sqrt(2) M_f zeta_f / v + Delta_f  =  Pi_f / cos(beta) - sqrt(2) M_f tan(beta) / v
+         ThdmPt g = a;
+         g.mb.yukawa_type = thdm::Yukawa_type::general;
+         Built ba = build(a);
+         vt::Ev ev("Equiv");
+         ev.str("case", id).str("sig", sig).str("kind", "general").str("role", "a").str("exc", ba.exc).b("running", false);
+         if (ba.exc.empty()) ev.raw("res", vm::named_json(res_and_yuk(*ba.model)));
+         ev.emit();
+         if (!ba.exc.empty()) continue;
+         const double v = ba.model->get_v();
+         const double cb = 1.0 / std::sqrt(1 + tb * tb);
+         auto pi_of = [&](double zeta, const Eigen::Matrix<double, 3, 3>& Delta, const Eigen::Array<double, 3, 1>& mf) {
+            Eigen::Matrix<double, 3, 3> M = Eigen::Matrix<double, 3, 3>::Zero();
+            for (int i = 0; i < 3; ++i) M(i, i) = mf(i);
+            return Eigen::Matrix<double, 3, 3>(cb * (std::sqrt(2.0) * M * (zeta + tb) / v + Delta));
+         };
+         g.mb.Pi_u = pi_of(a.mb.zeta_u, a.mb.Delta_u, ba.model->get_MFu());
+         g.mb.Pi_d = pi_of(a.mb.zeta_d, a.mb.Delta_d, ba.model->get_MFd());
+         g.mb.Pi_l = pi_of(a.mb.zeta_l, a.mb.Delta_l, ba.model->get_MFe());
+         emit_pair("Equiv", id, sig, "b", g);
+      } else {
+         const std::string& what = c.at(5);
+         ThdmPt q = p;
+         if (what == "zeta") { q.mb.zeta_u += rng.uni(0.5, 50); q.mb.zeta_d -= rng.uni(0.5, 50); q.mb.zeta_l += rng.uni(0.5, 50); }
+         else if (what == "Pi") { q.mb.Pi_u = vm::rand33(rng, 1); q.mb.Pi_d = vm::rand33(rng, 1); q.mb.Pi_l = vm::rand33(rng, 1); }
+         else { q.mb.Delta_u = vm::rand33(rng, 1); q.mb.Delta_d = vm::rand33(rng, 1); q.mb.Delta_l = vm::rand33(rng, 1); }
+         emit_pair("Ignored", id, sig, "a", p);
+         emit_pair("Ignored", id, sig, "b", q);
+      }
+   }
+}
+
+// ---- C10 -------------------------------------------------------------------------------
+// case line: <id> <kind> <ytype> <tbclass>
+//   smlimit   cos(beta-alpha) = 0, m_h = m_hSM = m over a family of m, running off
+//   decouple  gauge basis, |lambda_i| <= 2, heavy scale M = 1, sqrt(10), 10, 10 sqrt(10) TeV
+void run_c10(const std::vector<std::vector<std::string>>& cases, vt::Rng& rng)
+{
+   for (const auto& c : cases) {
+      const std::string& id = c.at(0);
+      const std::string& kind = c.at(1);
+      const int ytype = std::stoi(c.at(2));
+      const std::string sig = kind + "/type" + c.at(2) + "/" + c.at(3);
+      ThdmPt p = vm::random_thdm_mass(rng, ytype, true);
+      p.mb.tan_beta = tb_of(c.at(3), rng);
+      p.cfg.running_couplings = false;
+      if (kind == "smlimit") {
+         p.mb.sin_beta_minus_alpha = 1.0;
+         p.mb.lambda_6 = 0; p.mb.lambda_7 = 0;
+         p.mb.mH = rng.logu(600, 2000); p.mb.mA = rng.logu(200, 2000); p.mb.mHp = rng.logu(200, 2000);
+         p.mb.m122 = p.mb.mA * p.mb.mA * p.mb.tan_beta / (1 + p.mb.tan_beta * p.mb.tan_beta);
+         for (double m : {50.0, 90.0, 125.0, 200.0, 350.0, 500.0}) {
+            ThdmPt q = p;
+            q.mb.mh = m;
+            q.sm.set_mh(m);
+            Built b = build(q);
+            vt::Ev ev("SMLimit");
+            ev.str("case", id).str("sig", sig).num("m", m).str("exc", b.exc);
+            if (b.exc.empty()) {
+               ev.num("a1L", calculate_amu_1loop(*b.model)).num("a2LF", calculate_amu_2loop_fermionic(*b.model))
+                 .num("a2LB", calculate_amu_2loop_bosonic(*b.model)).num("cba", b.model->get_cos_beta_minus_alpha())
+                 .num("mm", b.model->get_MFe(1)).num("v", b.model->get_v()).num("alpha", b.model->get_alpha_em());
+            }
+            ev.emit();
+         }
+      } else {
+         ThdmPt q = p;
+         q.mass_basis = false;
+         q.gb.yukawa_type = p.mb.yukawa_type;
+         q.gb.zeta_u = p.mb.zeta_u; q.gb.zeta_d = p.mb.zeta_d; q.gb.zeta_l = p.mb.zeta_l;
+         q.gb.lambda << rng.uni(0.2, 2), rng.uni(0.2, 2), rng.uni(-1, 2), rng.uni(-2, 2), rng.uni(-2, 0), rng.uni(-0.3, 0.3), rng.uni(-0.3, 0.3);
+         q.gb.tan_beta = p.mb.tan_beta;
+         const double tb = q.gb.tan_beta;
+         const double s2b_half = tb / (1 + tb * tb);
+         for (int k = 0; k < 4; ++k) {
+            const double M = 1000.0 * std::pow(10.0, 0.5 * k);
+            q.gb.m122 = M * M * s2b_half;            // m12^2 = M^2 sin(beta) cos(beta): heavy scale M
+            Built b = build(q);
+            if (b.exc.empty()) {
+               // a_mu(THDM) is the difference to the SM: the SM Higgs mass is the light Higgs mass of the point
+               q.sm.set_mh(b.model->get_Mhh(0));
+               b = build(q);
+            }
+            vt::Ev ev("Decouple");
+            ev.str("case", id).str("sig", sig).i("k", k).num("M", M).str("exc", b.exc);
+            if (b.exc.empty()) {
+               ev.num("a1L", calculate_amu_1loop(*b.model)).num("a2LF", calculate_amu_2loop_fermionic(*b.model))
+                 .num("a2LB", calculate_amu_2loop_bosonic(*b.model)).num("mH", b.model->get_Mhh(1)).num("mA", b.model->get_MAh(1))
+                 .num("mHp", b.model->get_MHm(1)).num("mh", b.model->get_Mhh(0)).num("cba", b.model->get_cos_beta_minus_alpha());
+               // magnitudes of the documented sub-parts (scale against which a cancelling total is judged)
+               double sF = 0, sB = 0;
+               for (const auto& pr : vm::thdm_parts(*b.model)) {
+                  if (pr.first == "F_charged" || pr.first == "F_neutral") sF += std::fabs(pr.second);
+                  if (pr.first == "B_EWadd" || pr.first == "B_nonYuk" || pr.first == "B_Yuk") sB += std::fabs(pr.second);
+               }
+               // size of the individual heavy-Higgs one-loop terms: m_mu^2 |y_S|^2 ln(m_S^2/m_mu^2) / (8 pi^2 m_S^2)
+               const double mm = b.model->get_MFe(1);
+               auto term = [&](std::complex<double> y, double mS) {
+                  return mm * mm * std::norm(y) * std::log(mS * mS / (mm * mm)) / (8 * 9.869604401089358 * mS * mS);
+               };
+               const double s1 = term(b.model->get_ylH()(1, 1), b.model->get_Mhh(1)) + term(b.model->get_ylA()(1, 1), b.model->get_MAh(1))
+                  + term(b.model->get_ylHp()(1, 1), b.model->get_MHm(1));
+               ev.num("S_F", sF).num("S_B", sB).num("S_1", s1);
+            }
+            ev.emit();
+         }
+      }
+   }
+}
+
+// ---- C20 -------------------------------------------------------------------------------
+// case line: <id> <kind> [class]
+//   ckm_w <inside|edge|outside>   Wolfenstein input;  ckm_a  angle input;  ew  electroweak relations;
+//   run   running masses over a ladder of scales;  thdmrun  Yukawa getters with running on/off
+void emit_ckm(vt::Ev& ev, const SM& sm)
+{
+   NV v;
+   vm::push_cmat(v, "V", sm.get_ckm());
+   ev.raw("ckm", vm::named_json(v));
+}
+
+void run_c20(const std::vector<std::vector<std::string>>& cases, vt::Rng& rng)
+{
+   for (const auto& c : cases) {
+      const std::string& id = c.at(0);
+      const std::string& kind = c.at(1);
+      const std::string cls = c.size() > 2 ? c[2] : "-";
+      const std::string sig = kind + "/" + cls;
+      if (kind == "ckm_w") {
+         double w[4];
+         for (double& x : w) x = rng.uni(-1, 1);
+         const int which = rng.below(4);
+         if (cls == "edge") w[which] = rng.coin() ? 1.0 : -1.0;
+         if (cls == "outside") w[which] = rng.sign() * (1.0 + rng.logu(1e-12, 10));
+         if (cls == "nonfinite") w[which] = rng.coin() ? std::nan("") : std::numeric_limits<double>::infinity();
+         SM sm;
+         const std::string exc = vm::exc_class([&] { sm.set_ckm_from_wolfenstein(w[0], w[1], w[2], w[3]); });
+         vt::Ev ev("Ckm");
+         ev.str("case", id).str("sig", sig).str("cls", cls).str("exc", exc).num("w0", w[0]).num("w1", w[1]).num("w2", w[2]).num("w3", w[3]);
+         emit_ckm(ev, sm);
+         ev.emit();
+      } else if (kind == "ckm_a") {
+         SM sm;
+         const double pi = 3.141592653589793;
+         const double t12 = rng.uni(-pi, pi), t13 = rng.uni(-pi, pi), t23 = rng.uni(-pi, pi), d = rng.uni(-2 * pi, 2 * pi);
+         const std::string exc = vm::exc_class([&] { sm.set_ckm_from_angles(t12, t13, t23, d); });
+         vt::Ev ev("Ckm");
+         ev.str("case", id).str("sig", sig).str("cls", "inside").str("exc", exc).num("w0", t12).num("w1", t13).num("w2", t23).num("w3", d);
+         emit_ckm(ev, sm);
+         ev.emit();
+      } else if (kind == "ew") {
+         SM sm;
+         const double mz = rng.uni(80, 100), mw = mz * rng.uni(0.5, 0.999), a = rng.logu(1e-4, 0.1);
+         sm.set_mz(mz); sm.set_mw(mw); sm.set_alpha_em_mz(a); sm.set_alpha_em_0(a * rng.uni(0.9, 1.0)); sm.set_alpha_s_mz(rng.uni(0.05, 0.3));
+         vt::Ev ev("EW");
+         ev.str("case", id).str("sig", sig).num("mw", sm.get_mw()).num("mz", sm.get_mz()).num("alpha_mz", sm.get_alpha_em_mz())
+           .num("alpha_0", sm.get_alpha_em_0()).num("alpha_s", sm.get_alpha_s_mz())
+           .num("cw", sm.get_cw()).num("sw", sm.get_sw()).num("e_mz", sm.get_e_mz()).num("e_0", sm.get_e_0()).num("g2", sm.get_g2())
+           .num("gY", sm.get_gY()).num("g3", sm.get_g3()).num("v", sm.get_v());
+         ev.emit();
+      } else if (kind == "run") {
+         const double mt = rng.uni(100, 300), mb = rng.uni(2, 6), mtau = rng.uni(1.5, 2.0), mz = rng.uni(85, 95);
+         const double as = cls == "edge" ? (rng.coin() ? rng.uni(0.05, 0.07) : rng.uni(0.25, 0.3)) : rng.uni(0.07, 0.25);
+         const double aem = rng.uni(1 / 140.0, 1 / 120.0);
+         // geometric ladder of scales Q_k = Q_0 r^k inside [1, 1e6] GeV
+         const double Q0 = rng.logu(1, 10);
+         const double r = std::pow(1e6 / Q0, 1.0 / 7) * rng.uni(0.5, 1.0);
+         const std::string sg = sig + (as > 0.17 ? "/highas" : (as < 0.075 ? "/lowas" : "/midas"));
+         std::ostringstream cap;
+         std::streambuf* old = std::cerr.rdbuf(cap.rdbuf());
+         for (int k = 0; k < 8; ++k) {
+            const double Q = Q0 * std::pow(r, k);
+            vt::Ev ev("Run");
+            ev.str("case", id).str("sig", sg).i("k", k).num("Q", Q).num("mt_pole", mt).num("mb_mb", mb).num("mtau_pole", mtau)
+              .num("mz", mz).num("alpha_s", as)
+              .num("mt", calculate_mt_SM6_MSbar(mt, as, mz, Q)).num("mb", calculate_mb_SM6_MSbar(mb, mt, as, mz, Q))
+              .num("mtau", calculate_mtau_SM6_MSbar(mtau, aem, Q)).b("warned", !cap.str().empty());
+            ev.emit();
+         }
+         // boundary scales
+         vt::Ev ev("RunBoundary");
+         ev.str("case", id).str("sig", sg).num("mt_pole", mt).num("mb_mb", mb).num("mtau_pole", mtau).num("alpha_s", as)
+           .num("mtau_at_mtau", calculate_mtau_SM6_MSbar(mtau, aem, mtau))
+           .num("mt_at_mt", calculate_mt_SM6_MSbar(mt, as, mz, mt)).b("warned", !cap.str().empty());
+         ev.emit();
+         std::cerr.rdbuf(old);
+      } else if (kind == "thdmrun") {
+         ThdmPt p = vm::random_thdm_mass(rng, 1 + rng.below(6), false);
+         for (int run = 0; run < 2; ++run) {
+            p.cfg.running_couplings = run == 1;
+            Built b = build(p);
+            vt::Ev ev("ThdmRun");
+            ev.str("case", id).str("sig", sig).b("running", run == 1).str("exc", b.exc);
+            if (b.exc.empty()) ev.raw("yuk", vm::named_json(vm::thdm_yukawas(*b.model)));
+            ev.emit();
+         }
+      }
+   }
+}
+
 } // namespace
 
 int main(int argc, char** argv)
@@ -99,6 +451,10 @@ int main(int argc, char** argv)
    vt::install_terminate();
    vt::Rng rng(vt::env_seed());
    if (mode == "c18") run_c18(cases, rng);
+   else if (mode == "c08") run_c08(cases, rng);
+   else if (mode == "c09") run_c09(cases, rng);
+   else if (mode == "c10") run_c10(cases, rng);
+   else if (mode == "c20") run_c20(cases, rng);
    else { std::fprintf(stderr, "unknown mode %s\n", mode.c_str()); return 2; }
    vt::flush_trace();
    return 0;
